@@ -440,6 +440,10 @@ class MainTransformer(object):
     def _resolve_toplevel(self, type_str, type_node=None, node=None, parent=None):
         """Like _resolve(), but attempt to preserve more attributes of original type."""
         result = self._resolve(type_str, type_node=type_node, node=node, parent=parent)
+        if type_node is not None and not result.resolved:
+            # an unknown type name leaves the type derived from the C declaration
+            # in place (a container stays a container)
+            return type_node
         # If we replace a node with a new type (such as an annotated) we
         # might lose the ctype from the original node.
         if type_node is not None:
